@@ -20,6 +20,9 @@ from .runtime import Runtime
 from .objects import PDict as PDictT
 
 VERIF = os.path.dirname(os.path.dirname(os.path.abspath(__file__)))
+# evidence/ and replays/ are written next to the machinery unless a kill-check run on a scratch copy of /repo
+# asks for another place (tools/acceptance.py, tools/mutate.py): those runs must not overwrite the evidence of /repo
+OUT = os.environ.get("PYVC_OUT") or VERIF
 
 
 class VU:
@@ -381,7 +384,7 @@ def run_check(prop, units, tier, seed, level, technique_text, trusted_base, repl
 
     exit_code = 0
     lines = []
-    os.makedirs(os.path.join(VERIF, "replays"), exist_ok=True)
+    os.makedirs(os.path.join(OUT, "replays"), exist_ok=True)
     violations = 0
     seen = set()
     for o in refuted:
@@ -390,7 +393,7 @@ def run_check(prop, units, tier, seed, level, technique_text, trusted_base, repl
             continue
         seen.add(key)
         violations += 1
-        rp = os.path.join(VERIF, "replays", "%s-%s.json" % (prop, _slug(o["name"])))
+        rp = os.path.join(OUT, "replays", "%s-%s.json" % (prop, _slug(o["name"])))
         replay_result = None
         if native_witness is not None and not o.get("native"):
             # the bounded stand-in of this property found a concrete failing input on this tree: it is the replay
@@ -484,8 +487,8 @@ def run_check(prop, units, tier, seed, level, technique_text, trusted_base, repl
         "wall_s": round(time.time() - t0, 3),
         "violations": violations,
     }
-    os.makedirs(os.path.join(VERIF, "evidence"), exist_ok=True)
-    with open(os.path.join(VERIF, "evidence", "%s.json" % prop), "w") as fh:
+    os.makedirs(os.path.join(OUT, "evidence"), exist_ok=True)
+    with open(os.path.join(OUT, "evidence", "%s.json" % prop), "w") as fh:
         json.dump(evidence, fh, indent=1, default=str)
     for ln in lines:
         print(ln)
